@@ -145,6 +145,10 @@ def cases_jsonclass(tier):
             {"jsonrpc": "2.0", "method": "f", "params": [x]},
             {"data": x},
             [{"data": x}, {"jsonrpc": "2.0", "method": "f", "id": 4}],
+            {"jsonrpc": "2.0", "method": "nosuch", "params": [1], "id": x},
+            {"method": "boom", "params": [], "id": x},
+            [{"jsonrpc": "2.0", "method": "f", "id": 5}, {"jsonrpc": "2.0", "method": "boom", "id": x}, {"method": "pair", "params": [1], "id": x}],
+            [{"method": "f", "params": [], "id": 6}, {"method": "nosuch", "params": [], "id": x}],
         ]
         for p in places:
             for w in ws:
